@@ -645,6 +645,13 @@ let run_own_case (oc : out_channel) (c : case) : unit =
       | "ocon" ->
           let (h1, _) = step (!st).o_heap (OConnect (node_in (ios stp.(1)), node_in (ios stp.(2)), n_of_int (ios stp.(3)))) in
           set_heap_ h1; ("ok", [])
+      | "oqry" ->
+          let a = node_in (ios stp.(1)) and b = node_in (ios stp.(2)) in
+          let hh = (!st).o_heap in
+          let conn x y = (match keyof hh y with
+                          | Some k -> if directed then is_connected_d keqb hh x k else is_connected_u keqb hh x k
+                          | None -> false) in
+          (Printf.sprintf "q %d %d" (b2i (conn a b)) (b2i (conn b a)), [])
       | "otry" ->
           let (h1, r) = step (!st).o_heap (OTryConnect (node_in (ios stp.(1)), node_in (ios stp.(2)), n_of_int (ios stp.(3)))) in
           set_heap_ h1; (outcome_str r, [])
